@@ -70,7 +70,7 @@ impl<E: Endianness, BW: BitWrite<E>, const PRINT: bool> BitWrite<E>
 
     fn flush(&mut self) -> Result<usize, Self::Error> {
         self.bit_write.flush().inspect(|x| {
-            self.bits_written += *x;
+            // The flushed bits have already been counted when they were written
             if PRINT {
                 eprintln!("flush() = {} (total = {})", x, self.bits_written);
             }
